@@ -106,3 +106,22 @@ _p('C15', secs=(25, 420), runs=(200000, 20000000), mix=(4, 8),
     assumptions=COMMON_ASSUME + ['pipelined connections are judged at quiescence and never torn down inside a run (FIXWriter::stop() pushes NULL into the FastFlow queue, which asserts); their workers are recycled', 'after a corrupted preamble only "nothing corrupted is handed on, reader stops" is demanded; in the pipelined model messages still queued at EOF may be dropped with the connection'],
     level_text='seeded exploration of streams x chunkings x transport faults x interleavings; byte-exact comparison of what the session is handed; sanitizer aborts count as violations',
     level_note='trusted: SimSock semantics (TCP-like FIFO byte stream), kernel; message bodies are arbitrary bytes with valid framing (the reader does not decode beyond the preamble)')
+
+_SESS_REAL = ['FIX8::Session (start/process/send/send_batch/send_process/handle_*/heartbeat_service/stop)', 'FIX8::ClientConnection / ServerConnection, FIXReader thread, FIXWriter', 'Timer<Session> thread (simulated clock)', 'MemoryPersister / FilePersister (on simfs)', 'message encode/decode of the compiled FIX4.2 test schema']
+_SESS_STUB = ['counterparty: scripted peer speaking through an independent tag=value codec in the harness', 'socket: SimSock (Poco::Net::StreamSocketImpl subclass) with seeded short reads/writes, EAGAIN, dribble', 'application: handle_application override that calls enforce() exactly as the sample applications do and records deliveries', 'loggers: none (null loggers are accepted by the session)']
+_SESS_ASSUME = COMMON_ASSUME + ['threaded and coroutine process models (the pipelined model cannot be torn down: FIXWriter::stop() pushes NULL into the FastFlow queue, which asserts)', 'scripted messages stay inside plain FIX (printable values, no data fields, no nested groups)', 'session internals (next send/receive numbers, state) are read only at quiescent points']
+
+_p('C16', secs=(30, 480), runs=(100000, 10000000), mix=(4, 8),
+    title='Outbound sequence numbers are consecutive and persisted',
+    technique='deterministic simulation: one real session (both roles, memory/file persister, threaded/coroutine) against a scripted peer on a simulated socket with seeded transport faults and scheduler; oracle over the parsed wire log and the persisted control record at every quiescent point',
+    rule='one evaluation = one seeded history of 2-18 (thorough 2-40) ops: application send by pointer/by reference, batch of 2-6, in-sequence peer application message, peer TestRequest/Heartbeat, undecodable peer message, peer ResendRequest inside the sent range, silence (timer heartbeats), restart with recovered numbers; optional configured start number; non-trivial = at least 2 send ops and 4 new messages on the wire; distinct = distinct event-log hash',
+    real=_SESS_REAL, stub=_SESS_STUB, assumptions=_SESS_ASSUME,
+    level_text='seeded exploration of session histories; every new (non-PossDup, non-GapFill) message on the wire must carry the next number (start = configured or recovered), no number reused by distinct new messages, control record == (next send, next receive) after every op, recovered number used after restart',
+    level_note='trusted: harness codec and scripted peer; a Logout that ends the session may reuse the last number (documented no-increment send); after a GapFill the oracle follows the announced NewSeqNo (C18 judges that)')
+_p('C17', secs=(30, 480), runs=(100000, 10000000), mix=(4, 8),
+    title='Sent application messages are stored exactly as transmitted',
+    technique='deterministic simulation: same world as C16 with batches weighted up; at every quiescent point the persister is read back and compared byte-for-byte with the wire log split by the independent parser',
+    rule='one evaluation = one seeded history as for C16 (batches weighted up); non-trivial = at least 2 send ops and 4 new messages on the wire; distinct = distinct event-log hash',
+    real=_SESS_REAL, stub=_SESS_STUB, assumptions=_SESS_ASSUME,
+    level_text='seeded exploration; for every new application message on the wire get(seq) must return exactly the transmitted bytes, administrative numbers have no stored copy, nothing is stored above the highest number sent',
+    level_note='trusted: harness codec (splits a batch written in one sendBytes into messages), persister get() (judged by C26)')
